@@ -51,6 +51,14 @@ let parse_base_op (o : string) (impl_step : string) : z op =
       | Some t -> shape_in_obs impl_step t
       | None -> [] in
     OSlice (nat 1, parse_slices f.(2), hint)
+  | "narrow" ->
+    (* Narrow(t, dim, start, length) = t.Slice(nil x dim, S(start, start+length, 1)) *)
+    let hint = match new_id_of_status impl_step with
+      | Some t -> shape_in_obs impl_step t
+      | None -> [] in
+    let dim = int_of_string f.(2) and st = int_of_string f.(3) and ln = int_of_string f.(4) in
+    let sl = List.init dim (fun _ -> None) @ [Some ((z_of_int st, z_of_int (st + ln)), z_of_int 1)] in
+    OSlice (nat 1, sl, hint)
   | "T" -> OT (nat 1, zs f.(2))
   | "UT" -> OUT (nat 1)
   | "transpose" -> OTranspose (nat 1)
